@@ -58,6 +58,7 @@ type FuncSpec struct {
 	Uses        []string
 	Ghost       map[string]string // ghost locals (unused for now)
 	Covers      bool
+	DeadReturns map[int]bool // `unreachable return K ...`: returns the contract itself rules out (defensive code)
 }
 
 type GhostField struct {
@@ -86,7 +87,7 @@ type PkgSpec struct {
 
 var clauseKeywords = map[string]bool{
 	"use": true, "func": true, "props": true, "requires": true, "ensures": true, "modifies": true,
-	"loop": true, "invariant": true, "decreases": true, "flags": true, "ghost": true, "assert": true, "assume": true, "label": true, "bind": true, "table": true, "define": true,
+	"loop": true, "invariant": true, "decreases": true, "flags": true, "ghost": true, "assert": true, "assume": true, "label": true, "bind": true, "unreachable": true, "table": true, "define": true,
 }
 
 func splitLabel(kw string) (string, string) {
@@ -222,6 +223,23 @@ func parseContractFile(path, pkgPath string, ps *PkgSpec) error {
 						return fmt.Errorf("%s:%d: unknown flag %s", path, lineNo, fl)
 					}
 				}
+			case "unreachable":
+				// unreachable return K1 K2 ... : these return statements (in source order, from 0) cannot be reached
+				// when the preconditions hold; every other return must be reachable (vacuity guard)
+				fs := strings.Fields(rest)
+				if len(fs) < 2 || fs[0] != "return" {
+					return fmt.Errorf("%s:%d: expected `unreachable return K ...`", path, lineNo)
+				}
+				if cur.DeadReturns == nil {
+					cur.DeadReturns = map[int]bool{}
+				}
+				for _, f := range fs[1:] {
+					k, err := strconv.Atoi(f)
+					if err != nil {
+						return fmt.Errorf("%s:%d: bad return ordinal %q", path, lineNo, f)
+					}
+					cur.DeadReturns[k] = true
+				}
 			case "loop":
 				k, err := strconv.Atoi(strings.TrimSuffix(strings.TrimSpace(rest), ":"))
 				if err != nil {
@@ -319,6 +337,7 @@ func parseContractFile(path, pkgPath string, ps *PkgSpec) error {
 			}
 			loc := strings.TrimSpace(src[:i])
 			a.Callee = loc
+			a.Ordinal = -1 // no ordinal: every call of that function
 			if j := strings.Index(loc, "#"); j >= 0 {
 				a.Callee = loc[:j]
 				a.Ordinal, _ = strconv.Atoi(loc[j+1:])
